@@ -479,3 +479,96 @@ def replay_to_output_addr(obligation, model, meta):
                     'observed': 'returned columns %r, the variable is stored in columns %r' % (got, want),
                     'native_cmd': 'Output.to_output_addr(stub, item)'}
     return {'confirmed': False, 'tried': 7}
+
+
+def set_output_subidx_tail(pid):
+    """System.set_output_subidx, from the assignment of Output.xidx on: whatever addresses the selection rows collected (with
+    repetitions when rows overlap), Output.xidx and Output.yidx are strictly increasing -- every selected address once -- and hold exactly
+    the collected addresses.  np.unique(a) returns the distinct values of a in ascending order; sorted(a) returns the values of a in
+    ascending order with their multiplicities (assumed contracts)."""
+    from pyvc.symval import DictC
+
+    def members(src_vals, src_n, dst_vals, dst_n, tag):
+        """every element of src occurs in dst (witness function) """
+        w = z3.Function('wit_%s!%d' % (tag, next(_wit)), I, I)
+        k = fresh('k', I)
+        return z3.ForAll([k], z3.Implies(z3.And(k >= 0, k < src_n), z3.And(w(k) >= 0, w(k) < dst_n, dst_vals(w(k)) == src_vals(k))))
+
+    def members_goal(src_vals, src_n, dst_vals, dst_n):
+        k, j = fresh('k', I), fresh('j', I)
+        return z3.ForAll([k], z3.Implies(z3.And(k >= 0, k < src_n), z3.Exists([j], z3.And(j >= 0, j < dst_n, dst_vals(j) == src_vals(k)))))
+
+    def content(st, x):
+        c = st.content(x)
+        if isinstance(c, ArrC):
+            return (lambda i: c.vals[i]), c.n
+        if isinstance(c, SeqC):
+            return (lambda i: c.arr[i]), c.n
+        raise Unsupported('sequence expected')
+
+    def unique(ex, st, args, kw, node):
+        src, n = content(st, args[0])
+        out = TArr().make(st, 'unique')
+        oc = st.content(out)
+        a, b = fresh('a', I), fresh('b', I)
+        st.assume(z3.And(oc.n <= n, z3.ForAll([a, b], z3.Implies(z3.And(a >= 0, a < b, b < oc.n), oc.vals[a] < oc.vals[b]))))
+        st.assume(members(src, n, lambda i: oc.vals[i], oc.n, 'u1'))
+        st.assume(members(lambda i: oc.vals[i], oc.n, src, n, 'u2'))
+        st.ghost['ascending'] = st.ghost['ascending'] + [out.loc]
+        return out
+
+    def sorted_(ex, st, args, kw, node):
+        src, n = content(st, args[0])
+        out = TSeq().make(st, 'sorted')
+        oc = st.content(out)
+        a, b = fresh('a', I), fresh('b', I)
+        if isinstance(args[0], Ref) and args[0].loc in st.ghost['ascending']:
+            # sorting an ascending sequence returns its values in place (a property of every sorting function)
+            st.assume(z3.And(oc.n == n, z3.ForAll([a], z3.Implies(z3.And(a >= 0, a < n), oc.arr[a] == src(a)))))
+            return out
+        # an ascending permutation: position a of the result holds element perm(a) of the source, perm injective
+        perm = z3.Function('perm!%d' % next(_wit), I, I)
+        st.assume(z3.And(oc.n == n, z3.ForAll([a, b], z3.Implies(z3.And(a >= 0, a < b, b < n), oc.arr[a] <= oc.arr[b]))))
+        st.assume(z3.ForAll([a], z3.Implies(z3.And(a >= 0, a < n), z3.And(perm(a) >= 0, perm(a) < n, oc.arr[a] == src(perm(a))))))
+        st.assume(z3.ForAll([a, b], z3.Implies(z3.And(a >= 0, a < b, b < n), perm(a) != perm(b))))
+        st.assume(members(src, n, lambda i: oc.arr[i], oc.n, 's1'))
+        return out
+
+    def mk_post(code, attr, which):
+        def post(old, new, res):
+            src, n = content(old.st, old.st.content(old.st.env['export_vars']).items[code])
+            dv, dn = content(new.st, new.st.load(attr))
+            a, b = fresh('a', I), fresh('b', I)
+            if which == 'increasing':
+                return z3.ForAll([a, b], z3.Implies(z3.And(a >= 0, a < b, b < dn), dv(a) < dv(b)))
+            if which == 'complete':
+                return members_goal(src, n, dv, dn)
+            return members_goal(dv, dn, src, n)
+        return post
+    posts = [('%s:%s' % (attr.split('.')[-1], which), mk_post(code, attr, which)) for code, attr in (('x', 'self.Output.xidx'), ('y', 'self.Output.yidx'))
+             for which in ('increasing', 'complete', 'nothing-else')]
+    c = Contract(FS, 'System.set_output_subidx', pid=pid, params={'self': TObj()},
+                 schema={'self.Output.xidx': TSeq(), 'self.Output.yidx': TSeq()},
+                 calls={'np.unique': unique, 'sorted': sorted_}, globals_={'sorted': Func('sorted')}, ghost_init={'ascending': []},
+                 ensures=posts, modifies=['self.Output.xidx', 'self.Output.yidx'])
+    c.body_from = 'self.Output.xidx = '
+
+    def pre_state(st):
+        st.env['export_vars'] = st.new_ref(DictC({'x': TSeq().make(st, 'collected_x'), 'y': TSeq().make(st, 'collected_y')}), 'export_vars')
+    c.pre_state = pre_state
+    c.tag = 'tail'
+    return c
+
+
+import itertools as _it2  # noqa: E402
+_wit = _it2.count()
+FS = 'andes/system.py'
+
+
+def replay_output_selection(obligation=None, model=None, meta=None):
+    """native: accessors of the stored series with single and overlapping Output selections (contracts/bounded_getdata.py)"""
+    from contracts import bounded_getdata
+    n, bad = bounded_getdata.run()
+    if bad:
+        return {'confirmed': True, 'inputs': bad, 'observed': bad.get('observed'), 'native_cmd': 'contracts/bounded_getdata.py'}
+    return {'confirmed': False, 'tried': n}
